@@ -4,6 +4,7 @@
 package cmsx
 
 import (
+	"bytes"
 	"crypto"
 	"crypto/ecdsa"
 	"crypto/rand"
@@ -338,3 +339,36 @@ func VerifySignerInfo(der []byte, cert *x509.Certificate) error {
 type errorString string
 
 func (e errorString) Error() string { return string(e) }
+
+// ProtectedSpans returns byte ranges (relative to der) that any CMS verifier must cover: the first SignerInfo's
+// signature value, its signed attributes, and the TBS part of the signer's certificate.
+func ProtectedSpans(der []byte) ([][2]int, error) {
+	sd, err := parseSD(der)
+	if err != nil {
+		return nil, err
+	}
+	if len(sd.SignerInfos) == 0 {
+		return nil, errorString("no signer info")
+	}
+	si := sd.SignerInfos[0]
+	var out [][2]int
+	add := func(b []byte) {
+		if len(b) < 8 {
+			return
+		}
+		if i := bytes.Index(der, b); i >= 0 && bytes.LastIndex(der, b) == i {
+			out = append(out, [2]int{i, i + len(b)})
+		}
+	}
+	add(si.Signature)
+	add(si.SignedAttrs.Bytes)
+	certs, err := x509.ParseCertificates(sd.Certificates.Bytes)
+	if err == nil {
+		for _, c := range certs {
+			if c.SerialNumber.Cmp(si.Sid.Serial) == 0 && bytes.Equal(c.RawIssuer, si.Sid.Issuer.FullBytes) {
+				add(c.RawTBSCertificate)
+			}
+		}
+	}
+	return out, nil
+}
